@@ -63,14 +63,14 @@ Proof.
   unfold parse_body. destruct (id =? v9_template_id)%N.
   { destruct (parse_templates i) as [[ts pad] r|e] eqn:E; cbn [snd]; [|apply v9_from_refl].
     apply templates_body_exact in E. cbn [export_v9_body] in E. inversion E; subst.
-    split; cbn [v9_t v9_o]; intros k t H; [|now left].
+    split; cbn [v9_t v9_o]; intros k t H; [|left; now apply lookup_remove_keys_some in H].
     unfold learn_templates in H. rewrite lookup_fold_insert in H.
     destruct (last_def t_id k ts) as [t'|] eqn:El; [|now left].
     inversion H; subst. right. apply infix_flat_map. eapply last_def_in; eauto. }
   destruct (id =? v9_options_template_id)%N.
   { destruct (parse_otemplates i) as [[ts pad] r|e] eqn:E; cbn [snd]; [|apply v9_from_refl].
     apply otemplates_body_exact in E. cbn [export_v9_body] in E. inversion E; subst.
-    split; cbn [v9_t v9_o]; intros k t H; [now left|].
+    split; cbn [v9_t v9_o]; intros k t H; [left; now apply lookup_remove_keys_some in H|].
     unfold learn_otemplates in H. rewrite lookup_fold_insert in H.
     destruct (last_def ot_id k ts) as [t'|] eqn:El; [|now left].
     inversion H; subst. right. apply infix_flat_map. eapply last_def_in; eauto. }
@@ -139,7 +139,7 @@ Proof.
   { destruct (parse_itemplate i) as [t r|e] eqn:E; [|apply ix_from_refl].
     destruct (fields_valid _); cbn [snd]; [|apply ix_from_refl].
     apply itemplate_body_exact in E.
-    split; cbn [ix_t ix_o]; intros k t' H; [|now left].
+    split; cbn [ix_t ix_o]; intros k t' H; [|left; now apply lookup_remove_some in H].
     destruct (N.eqb_spec k (it_id t)) as [->|Hne].
     - rewrite lookup_insert_eq in H. inversion H; subst. right. exists i. split; [exact E|apply infix_refl].
     - rewrite lookup_insert_neq in H by congruence. now left. }
@@ -147,7 +147,7 @@ Proof.
   { destruct (parse_iotemplate i) as [t r|e] eqn:E; [|apply ix_from_refl].
     destruct (fields_valid _); cbn [snd]; [|apply ix_from_refl].
     apply iotemplate_body_exact in E.
-    split; cbn [ix_t ix_o]; intros k t' H; [now left|].
+    split; cbn [ix_t ix_o]; intros k t' H; [left; now apply lookup_remove_some in H|].
     destruct (N.eqb_spec k (io_id t)) as [->|Hne].
     - rewrite lookup_insert_eq in H. inversion H; subst. right. exists i. split; [exact E|apply infix_refl].
     - rewrite lookup_insert_neq in H by congruence. now left. }
